@@ -168,6 +168,10 @@ pub fn run(a: &Args) -> i32 {
         };
         let window: u64 = [4u64, 8, 64][rng.gen_range(0..3)];
         let len: u64 = rng.gen_range(1..=window / 2);
+        // a chunk larger than the whole window (it is granted only once nothing is in flight): on a third of the random,
+        // untimed credit runs
+        let oversized = sys.get(run).is_none() && !(timed_every > 0 && run % timed_every == timed_every - 1) && rng.gen_range(0..3) == 0;
+        let len: u64 = if oversized { window + rng.gen_range(1..=window) } else { len };
         let s0 = window; // window full: a credit waiter must block
         let _ = verif::take();
         let tc = TransferControl::with_replay_capacity(window, 1 << 20);
